@@ -314,6 +314,100 @@ def systematic_stall_jobs(r, prefix: str, played: bool) -> List[tuple]:
     return jobs
 
 
+def skeleton_conformance(chk: Check, n: int) -> None:
+    """The synchronisation skeleton of real sessions, block by block, against
+    Table.tla (TableSkelTrace): one TLC run per session with the session's own
+    configuration and full-length decision script.  A rejected skeleton is
+    CONFORMANCE-DRIFT (the all-interleavings result of TLC no longer transfers
+    to the code), reported as a note - never as a violation by itself."""
+    from . import tablemodel
+    r = rng('skel')
+    accepted, drift, total_events = 0, [], 0
+    for k in range(n):
+        played = k % 2 == 1
+        boards = rand_boards(r, 1 + (k % 3 == 2))
+        boards = [(dl, d, v, bid_, None) for (dl, d, v, bid_, dda) in boards]
+        styles = [{'auction': 'weak' if played else 'passout'}] * 4
+        order = [0, 1, 2, 3]
+        r.shuffle(order)
+        cfg = {'boards': boards, 'seed': r.randrange(1 << 30), 'styles': styles, 'vary': False,
+               'policy_spec': POLICIES[k % len(POLICIES)], 'ordered_arrival': True,
+               'requesters': [{'kind': 'client', 'seat': s, 'team': ('ns', 'ew')[s % 2]} for s in order],
+               'teams': ('ns', 'ew'), 'record_blocks': True}
+        cfg['policy'] = lambda rnd, spec=cfg['policy_spec']: make_policy(spec, rnd)
+        cfg['outdir'] = str(tlc.workdir())
+        cfg['tag'] = f'skel{k}'
+        res = run_session(cfg)
+        if res['verdict'] != 'all-done':
+            drift.append(f'session {k}: verdict {res["verdict"]}')
+            continue
+        # decisions per board -> script
+        scripts = []
+        for b in range(len(boards)):
+            calls = [d['value'] for d in res['decisions'] if d['board'] == b + 1 and d['kind'] == 'call']
+            cards = [d['value'] for d in res['decisions'] if d['board'] == b + 1 and d['kind'] == 'card']
+            scripts.append({'calls': calls, 'cards': cards})
+        evs = []
+        for (th, op, obj) in res['blocks']:
+            if th.startswith('client') or op in ('recv', 'ev.set.done', 'gate', 'recv.eof-spin'):
+                continue
+            if th == 'main' and op == 'begin':
+                continue
+            evs.append({'th': 0 if th == 'main' else int(th[4:]) + 1, 'op': op})
+        total_events += len(evs)
+        rq = [(s, ('ns', 'ew')[s % 2], 18) for s in order]
+        d = tablemodel.mc_module('MCSkel', rq, [(dl, de, vu) for (dl, de, vu, _, _) in boards], scripts)
+        (d / 'MCSkel.tla').write_text((d / 'MCSkel.tla').read_text()
+                                      .replace('EXTENDS Table\n', 'EXTENDS TableSkelTrace\n'))
+        f = d / 'trace.ndjson'
+        cfgt = tablemodel.table_cfg(13, invs=['NotConsumed'], deadlock=False) \
+            .replace('SPECIFICATION Spec', 'SPECIFICATION TSpec') + \
+            'CONSTRAINT Track\nPOSTCONDITION Reached\n'
+
+        def validate(events):
+            f.write_text('\n'.join(json.dumps(e) for e in events) + '\n')
+            o = tlc.run_tlc('MCSkel', cfgt, workers=1, spec_dir=d, env={'TRACE_FILE': str(f)},
+                            name='skel-tlc', timeout=1200, dfs_queue=True)
+            f.unlink()
+            return o
+        out = validate(evs)
+        if out.violated == 'NotConsumed':
+            accepted += 1
+            chk.add_tlc(out, f'skeleton of session {k} ({len(evs)} blocks) accepted by Table.tla')
+            if k == 0:
+                # negative control (the binding is not vacuous): the same trace
+                # with one barrier block of the main thread removed, and with two
+                # adjacent blocks of different threads swapped at a queue read,
+                # must be rejected
+                idx = [i for i, e in enumerate(evs) if e['th'] == 0 and e['op'] == 'bar.enter']
+                bad1 = evs[:idx[-1]] + evs[idx[-1] + 1:]
+                o1 = validate(bad1)
+                gets = [i for i, e in enumerate(evs) if e['th'] == 0 and e['op'] == 'q.get' and i > 0]
+                o2 = None
+                if gets:
+                    i = gets[0]
+                    # main's first queue read moved before the whole admission
+                    bad2 = [evs[i]] + evs[:i] + evs[i + 1:]
+                    o2 = validate(bad2)
+                ctl = {'removed_block_rejected': o1.violated != 'NotConsumed',
+                       'reordered_block_rejected': None if o2 is None else o2.violated != 'NotConsumed'}
+                chk.extra['skeleton_negative_control'] = ctl
+                if not ctl['removed_block_rejected'] or ctl['reordered_block_rejected'] is False:
+                    raise MachineryError(f'TableSkelTrace accepts a corrupted trace: {ctl}')
+        else:
+            tlc.require_clean(out, 'skeleton trace')
+            import re as _re
+            m = _re.search(r'<<"REACHED", (\d+), (\d+)>>', out.out)
+            at = int(m.group(1)) if m else -1
+            drift.append(f'session {k}: skeleton rejected at block {at} of {len(evs)}: '
+                         f'{evs[max(0, at - 6):at + 2]}')
+    chk.extra['skeleton_conformance'] = {'sessions': n, 'accepted': accepted,
+                                         'blocks': total_events, 'drift': drift[:10]}
+    chk.traces += accepted
+    for dmsg in drift:
+        chk.note('CONFORMANCE-DRIFT: ' + dmsg)
+
+
 def abort_jobs(r, n: int, prefix: str) -> List[tuple]:
     """An offence by one seat at call j / card j of board k of n, or an
     operator interrupt while the main thread is at one of its scheduling
@@ -461,6 +555,7 @@ def run_into(chk: Check, pid: str, tier: str) -> None:
             replay_jobs(chk, 12 if quick else 400, 't')
         if not quick:
             jobs += systematic_stall_jobs(r, 'yp', False) + systematic_stall_jobs(r, 'yq', True)
+        skeleton_conformance(chk, 4 if quick else 60)
     elif pid == 'C13':
         jobs = abort_jobs(r, 150 if quick else 3000, 'a')
     elif pid == 'C20':
